@@ -442,6 +442,10 @@ func Build(r *lib.Rng) (*acmelib.Bus, map[string]int) {
 			}
 			b.assignSome(msg, "message")
 			for _, rec := range ifaces {
+				// DBC lists receivers per signal: a message without signals rarely gets one
+				if len(msg.Signals()) == 0 && !r.Chance(1, 10) {
+					continue
+				}
 				if rec != ni && r.Chance(1, 3) {
 					if msg.AddReceiver(rec) == nil {
 						b.tag("msg-receiver")
